@@ -11,6 +11,7 @@ mod c13;
 mod compose;
 mod lifecycle;
 mod limits;
+mod mt;
 
 fn main() {
     vmon::run_main(&[
